@@ -736,3 +736,372 @@ pub async fn probe_stale_channel(variant: &str) -> (String, Vec<String>) {
   }
   (c.log, fails)
 }
+
+// ------------------------------------------------------------------------------------------------
+// Suite `micro` (C05): correspondence between `Model/Micro.lean` and the real server at suspension-point granularity.
+// Every modulator call parks; the harness decides when each returns and with what, which connections close, and writes the
+// same schedule in the model's labels (`mj` = a step whose effect is observed with the next compared step, `mi` = compared).
+// Schedules are restricted to those whose order the harness can observe or force: at most one task waits for a channel's lock,
+// a connection closes only when no other connection's task holds a lock, and a disconnect clean-up is run to its end at once.
+
+#[derive(Clone, Copy, PartialEq, Debug)]
+enum MStat {
+  Parked,
+  Waiting,
+  Done,
+}
+
+struct MTask {
+  conn: usize,
+  /// user index (1..=3) and whether the task is a JOIN
+  u: usize,
+  join: bool,
+  n: usize,
+  id: u32,
+  stat: MStat,
+}
+
+struct Micro {
+  c: Case,
+  tasks: Vec<MTask>,
+  /// user index (1..=3) -> live connection
+  conn_of: BTreeMap<usize, usize>,
+  t: String,
+}
+
+const MUSERS: &[&str] = &["alice", "bob", "carol"];
+
+impl Micro {
+  fn holder(&self, n: usize) -> Option<usize> {
+    self.tasks.iter().position(|t| t.n == n && t.stat == MStat::Parked)
+  }
+  fn waiter(&self, n: usize) -> Option<usize> {
+    self.tasks.iter().position(|t| t.n == n && t.stat == MStat::Waiting)
+  }
+  fn pending_of_conn(&self, k: usize) -> Option<usize> {
+    self.tasks.iter().position(|t| t.conn == k && t.stat != MStat::Done)
+  }
+  fn status(&self) -> String {
+    let items: Vec<String> = self
+      .tasks
+      .iter()
+      .enumerate()
+      .filter(|(_, t)| t.stat != MStat::Done)
+      .map(|(i, t)| format!("{i}:{}", if t.stat == MStat::Parked { "P" } else { "W" }))
+      .collect();
+    format!("st {}", items.join(","))
+  }
+  fn parked_on(&self, modu: &ScriptedModulator, n: usize) -> Option<(usize, String)> {
+    let pat = format!("!c{}@localhost", n + 1);
+    modu.parked().into_iter().enumerate().find(|(_, d)| d.contains(&pat))
+  }
+  /// after the notification of LEAVE task `ti` on channel `n` returned: is the call now parked on `n` the hand-over
+  /// announcement of that same task (rather than the notification of the waiter that got the lock)?
+  fn is_handover(&self, modu: &ScriptedModulator, ti: usize, n: usize) -> bool {
+    if self.tasks[ti].join {
+      return false;
+    }
+    let Some((_, d)) = self.parked_on(modu, n) else { return false };
+    if !d.starts_with("event MEMBER_JOINED") {
+      return false;
+    }
+    // a hand-over is announced with owner=true; a JOIN that waited for the lock of an existing channel never is
+    d.ends_with("owner=true")
+  }
+  /// writes a group of labels: all but the last as `mj`, the last as `mi` with the implementation's task statuses
+  fn emit(&mut self, labels: &[String]) {
+    for (i, l) in labels.iter().enumerate() {
+      if i + 1 == labels.len() {
+        let _ = writeln!(self.t, "mi {l}\nimpl {}", self.status());
+      } else {
+        let _ = writeln!(self.t, "mj {l}");
+      }
+    }
+  }
+  /// the status of task `ti` after the server has run: parked on its channel, answered, or waiting for the lock
+  fn observe(&mut self, modu: &ScriptedModulator, ti: usize, parked_before: usize) {
+    let (n, k, id) = (self.tasks[ti].n, self.tasks[ti].conn, self.tasks[ti].id);
+    let parked_now = modu.parked().len();
+    let on_chan = self.parked_on(modu, n).is_some() && self.holder(n).is_none_or(|h| h == ti);
+    let answered = !self.c.replies(k, id).is_empty();
+    self.tasks[ti].stat = if on_chan && (parked_now > parked_before || self.tasks[ti].stat == MStat::Parked) {
+      MStat::Parked
+    } else if answered || self.c.dead.contains(&k) {
+      MStat::Done
+    } else {
+      MStat::Waiting
+    };
+  }
+  /// after the lock of channel `n` was released: its waiter (at most one) runs
+  async fn run_waiter(&mut self, modu: &ScriptedModulator, n: usize, labels: &mut Vec<String>) {
+    if let Some(w) = self.waiter(n) {
+      let before = modu.parked().len().saturating_sub(1);
+      labels.push(format!("run {w}"));
+      // it has already run inside the server; classify it
+      self.tasks[w].stat = MStat::Done;
+      self.observe(modu, w, before);
+      if self.tasks[w].stat == MStat::Waiting {
+        // nobody else can hold the lock: it must have got it
+        self.tasks[w].stat = MStat::Done;
+      }
+    }
+  }
+  /// the last connection of user `u` is gone: `leave_all_channels` runs; each of its LEAVEs parks and is released at once
+  async fn run_cleanup(&mut self, modu: &ScriptedModulator, u: usize, labels: &mut Vec<String>) {
+    labels.push(format!("cleanup {u}"));
+    for _ in 0..4 {
+      self.c.pump(1).await;
+      let pat_user = format!(" {}@localhost ", MUSERS[u - 1]);
+      let found = modu.parked().into_iter().enumerate().find(|(_, d)| d.starts_with("event MEMBER_LEFT") && d.contains(&pat_user));
+      let Some((pi, desc)) = found else { break };
+      let n = if desc.contains("!c1@") { 0 } else { 1 };
+      let ti = self.tasks.len();
+      self.tasks.push(MTask { conn: 0, u, join: false, n, id: 0, stat: MStat::Parked });
+      labels.push(format!("next {u} {n} {ti}"));
+      labels.push(format!("run {ti}"));
+      let ok = self.c.rng.chance(3, 4);
+      modu.release(pi, ok);
+      self.c.pump(1).await;
+      // a hand-over announcement may follow (the lock is still held)
+      let pat = format!("!c{}@localhost", n + 1);
+      if let Some((hi, _)) = modu.parked().into_iter().enumerate().find(|(_, d)| d.starts_with("event MEMBER_JOINED") && d.contains(&pat)) {
+        labels.push(format!("run {ti} {} owner", if ok { "ok" } else { "fail" }));
+        let ok2 = self.c.rng.chance(3, 4);
+        modu.release(hi, ok2);
+        self.c.pump(1).await;
+        labels.push(format!("run {ti} {}", if ok2 { "ok" } else { "fail" }));
+      } else {
+        labels.push(format!("run {ti} {}", if ok { "ok" } else { "fail" }));
+      }
+      self.tasks[ti].stat = MStat::Done;
+    }
+  }
+}
+
+pub async fn run_micro_suite(seed: u64, cases: usize) -> String {
+  let mut master = Rng::new(seed ^ 0x31c0);
+  let mut out = String::new();
+  let mut stats: BTreeMap<String, u64> = BTreeMap::new();
+  for case in 0..cases {
+    let rng = master.fork();
+    let mut cfg = SrvCfg::default();
+    cfg.max_channels = 100;
+    cfg.max_clients = 100;
+    cfg.max_subs = 100;
+    cfg.request_timeout_ms = 3_600_000;
+    cfg.modulator = Some(vec![Operation::ForwardEvent]);
+    let srv = Srv::new(cfg.clone()).await;
+    let modu = srv.modulator.clone().unwrap();
+    let c = Case {
+      auth: false,
+      srv,
+      rng,
+      user: BTreeMap::new(),
+      dead: BTreeSet::new(),
+      closing: BTreeSet::new(),
+      inbox: BTreeMap::new(),
+      sent: Vec::new(),
+      next_id: 10,
+      log: String::new(),
+      fails: Vec::new(),
+    };
+    let mut m = Micro { c, tasks: Vec::new(), conn_of: BTreeMap::new(), t: String::new() };
+    let _ = writeln!(m.t, "case {case}");
+    for (i, u) in MUSERS.iter().enumerate() {
+      let k = m.c.open_identify(u).await;
+      m.conn_of.insert(i + 1, k);
+    }
+    modu.set_hold(true);
+    let mut in_handover: BTreeSet<usize> = BTreeSet::new();
+    let steps = m.c.rng.range(8, 22);
+    for _ in 0..steps {
+      let choice = m.c.rng.below(100);
+      let live: Vec<(usize, usize)> = m.conn_of.iter().map(|(u, k)| (*u, *k)).filter(|(_, k)| !m.c.dead.contains(k)).collect();
+      if choice < 45 {
+        // a request by a user whose connection has nothing pending
+        let free: Vec<(usize, usize)> = live.iter().copied().filter(|(_, k)| m.pending_of_conn(*k).is_none()).collect();
+        if free.is_empty() {
+          continue;
+        }
+        let (u, k) = free[m.c.rng.below(free.len() as u64) as usize];
+        let n = m.c.rng.below(2) as usize;
+        if m.holder(n).is_some() && m.waiter(n).is_some() {
+          continue;
+        }
+        let join = m.c.rng.chance(3, 5);
+        let id = m.c.id();
+        let ti = m.tasks.len();
+        let before = modu.parked().len();
+        let chan = full(CHANS[n]);
+        m.tasks.push(MTask { conn: k, u, join, n, id, stat: MStat::Waiting });
+        if join {
+          m.c.request(k, Req::Join { id, chan, ob: None }).await;
+        } else {
+          m.c.request(k, Req::Leave { id, chan, ob: None }).await;
+        }
+        m.observe(&modu, ti, before);
+        let labels = vec![format!("spawn {ti} {} {u} {n}", if join { "join" } else { "leave" }), format!("run {ti}")];
+        m.emit(&labels);
+        *stats.entry(if join { "join" } else { "leave" }.into()).or_insert(0) += 1;
+      } else if choice < 85 {
+        // a parked notification returns
+        let held: Vec<usize> = (0..2).filter(|n| m.holder(*n).is_some()).collect();
+        if held.is_empty() {
+          continue;
+        }
+        let n = held[m.c.rng.below(held.len() as u64) as usize];
+        let ti = m.holder(n).unwrap();
+        let k = m.tasks[ti].conn;
+        // a failing notification ends the requester's connection and starts its clean-up: only when nothing else is in flight
+        let alone = (0..2).all(|x| m.holder(x).is_none_or(|h| h == ti)) && m.waiter(n).is_none() && m.waiter(1 - n).is_none();
+        let ok = !alone || m.c.rng.chance(2, 3);
+        let Some((pi, _)) = m.parked_on(&modu, n) else { continue };
+        let before = modu.parked().len() - 1;
+        modu.release(pi, ok);
+        m.c.pump(1).await;
+        let mut labels = Vec::new();
+        // still parked on the same channel = the hand-over announcement of a LEAVE by the owner
+        let handover = ok && !m.tasks[ti].join && !in_handover.contains(&ti) && m.is_handover(&modu, ti, n);
+        if handover {
+          labels.push(format!("run {ti} ok owner"));
+          in_handover.insert(ti);
+          let _ = before;
+        } else {
+          labels.push(format!("run {ti} {}", if ok { "ok" } else { "fail" }));
+          m.tasks[ti].stat = MStat::Done;
+          m.run_waiter(&modu, n, &mut labels).await;
+        }
+        // a failed request closes its connection: the user's clean-up follows
+        if m.c.dead.contains(&k) {
+          if let Some((u, _)) = m.conn_of.iter().find(|(_, kk)| **kk == k).map(|(u, kk)| (*u, *kk)) {
+            m.conn_of.remove(&u);
+            m.run_cleanup(&modu, u, &mut labels).await;
+          }
+        }
+        m.emit(&labels);
+        *stats.entry(if ok { "release-ok" } else { "release-fail" }.into()).or_insert(0) += 1;
+      } else if choice < 95 {
+        // a client closes its connection (only when no other connection's task holds a lock)
+        if live.is_empty() {
+          continue;
+        }
+        let (u, k) = live[m.c.rng.below(live.len() as u64) as usize];
+        let own = m.pending_of_conn(k);
+        let foreign = (0..2).any(|n| m.holder(n).is_some_and(|h| Some(h) != own));
+        if foreign {
+          continue;
+        }
+        if let Some(ti) = own {
+          if m.tasks[ti].stat == MStat::Parked && m.waiter(m.tasks[ti].n).is_some() {
+            continue;
+          }
+        }
+        let mut labels = Vec::new();
+        m.c.close(k);
+        m.c.pump(1).await;
+        if let Some(ti) = own {
+          labels.push(format!("run {ti} cancel"));
+          m.tasks[ti].stat = MStat::Done;
+        }
+        m.conn_of.remove(&u);
+        m.run_cleanup(&modu, u, &mut labels).await;
+        m.emit(&labels);
+        *stats.entry("close".into()).or_insert(0) += 1;
+      } else {
+        // a user without a connection comes back
+        let gone: Vec<usize> = (1..=3).filter(|u| !m.conn_of.contains_key(u)).collect();
+        if let Some(u) = gone.first().copied() {
+          modu.set_hold(false);
+          let k = m.c.open_identify(MUSERS[u - 1]).await;
+          modu.set_hold(true);
+          if m.c.user.contains_key(&k) {
+            m.conn_of.insert(u, k);
+          }
+          *stats.entry("return".into()).or_insert(0) += 1;
+        }
+      }
+    }
+    // let everything finish: release what is parked (acknowledged), waiters follow
+    for _ in 0..20 {
+      let held: Vec<usize> = (0..2).filter(|n| m.holder(*n).is_some()).collect();
+      if held.is_empty() {
+        break;
+      }
+      let n = held[0];
+      let ti = m.holder(n).unwrap();
+      let k = m.tasks[ti].conn;
+      let Some((pi, _)) = m.parked_on(&modu, n) else { break };
+      modu.release(pi, true);
+      m.c.pump(1).await;
+      let mut labels = Vec::new();
+      let _ = k;
+      let handover = !in_handover.contains(&ti) && m.is_handover(&modu, ti, n);
+      if handover {
+        in_handover.insert(ti);
+        labels.push(format!("run {ti} ok owner"));
+      } else {
+        labels.push(format!("run {ti} ok"));
+        m.tasks[ti].stat = MStat::Done;
+        m.run_waiter(&modu, n, &mut labels).await;
+      }
+      m.emit(&labels);
+    }
+    modu.set_hold(false);
+    m.c.pump(5).await;
+    // the two listings, as the live users see them
+    let live: Vec<(usize, usize)> = m.conn_of.iter().map(|(u, k)| (*u, *k)).filter(|(_, k)| !m.c.dead.contains(k)).collect();
+    let mut idx: Vec<String> = Vec::new();
+    let mut mem: BTreeMap<usize, Option<Vec<usize>>> = BTreeMap::new();
+    let z = m.c.open_identify("zed").await;
+    for n in 0..2 {
+      // existence through a stranger, the list through a member
+      let id = m.c.id();
+      m.c.request(z, Req::Members { id, chan: full(CHANS[n]), page: None, size: None }).await;
+      let exists = !m.c.replies(z, id).iter().any(|f| matches!(&f.msg, Message::Error(p) if p.reason.as_ref() == "CHANNEL_NOT_FOUND"));
+      mem.insert(n, if exists { Some(Vec::new()) } else { None });
+    }
+    for (u, k) in &live {
+      let id = m.c.id();
+      m.c.request(*k, Req::Channels { id, page: None, size: None, owner: false }).await;
+      let mut chans: Vec<usize> = Vec::new();
+      if let Some(Message::ListChannelsAck(p)) = m.c.replies(*k, id).first().map(|f| &f.msg) {
+        for ch in &p.channels {
+          chans.push(if ch.to_string().contains("!c1@") { 0 } else { 1 });
+        }
+      }
+      chans.sort();
+      idx.push(format!("{u}={}", chans.iter().map(|x| x.to_string()).collect::<Vec<_>>().join(",")));
+      for n in 0..2 {
+        let id = m.c.id();
+        m.c.request(*k, Req::Members { id, chan: full(CHANS[n]), page: None, size: None }).await;
+        if let Some(Message::ListMembersAck(p)) = m.c.replies(*k, id).first().map(|f| &f.msg) {
+          let mut us: Vec<usize> = p
+            .members
+            .iter()
+            .filter_map(|x| MUSERS.iter().position(|mu| x.to_string().starts_with(&format!("{mu}@"))).map(|i| i + 1))
+            .collect();
+          us.sort();
+          mem.insert(n, Some(us));
+        }
+      }
+    }
+    // a channel that exists but that no live user can list (only departed users in it) is reported as `?`
+    let mems: Vec<String> = mem
+      .iter()
+      .map(|(n, v)| match v {
+        None => format!("{n}=-"),
+        Some(us) if us.is_empty() => format!("{n}=?"),
+        Some(us) => format!("{n}={}", us.iter().map(|x| x.to_string()).collect::<Vec<_>>().join(",")),
+      })
+      .collect();
+    let live_s = live.iter().map(|(u, _)| u.to_string()).collect::<Vec<_>>().join(",");
+    let _ = writeln!(m.t, "mi views {} 0,1", if live_s.is_empty() { "-".into() } else { live_s });
+    let _ = writeln!(m.t, "impl views idx:{} mem:{}", idx.join(";"), mems.join(";"));
+    if std::env::var("MICRO_TRACE").is_ok() {
+      eprintln!("==== case {case}\n{}", m.c.log);
+    }
+    out.push_str(&m.t);
+  }
+  let _ = writeln!(out, "stats {{\"suite\":\"micro\",\"seed\":{seed},\"cases\":{cases},\"ops\":{}}}", crate::js_map(&stats));
+  out
+}
